@@ -1,11 +1,12 @@
 //vf:pkg github.com/saucelabs/forwarder
 //vf:extra github.com/saucelabs/forwarder/internal/martian=../common/martianpipe.go
 //vf:extra github.com/saucelabs/forwarder=../common/fwdutil.go
+//vf:extra github.com/saucelabs/forwarder/middleware=../common/mwclock.go
 package forwarder
 
 // C04, the time frame is judged when a request arrives, not when the proxy was built.
 //
-//vf:assume C04-timeframe-run: one allowed frame (Monday 9-17); the clock the code reads is abstracted to (weekday, hour) through stubs of time.Time.Weekday/Hour (model-only); the proxy is built at one clock reading and two requests arrive (on two connections) at two later readings, each inside or outside the frame: a request arriving outside is refused with 451 and nothing is forwarded, one arriving inside is forwarded - whatever the reading was when the proxy was built or when the earlier request arrived
+//vf:assume C04-timeframe-run: one allowed frame (Monday 9-17); the clock the middleware reads is set by the harness (a Monday at 10:30 or at 20:30); the proxy is built at one clock reading and two requests arrive (on two connections) at two later readings, each inside or outside the frame: a request arriving outside is refused with 451 and nothing is forwarded, one arriving inside is forwarded - whatever the reading was when the proxy was built or when the earlier request arrived
 
 import (
 	"bufio"
@@ -16,30 +17,24 @@ import (
 
 	"github.com/saucelabs/forwarder/internal/martian"
 	"github.com/saucelabs/forwarder/internal/vfrt"
+	"github.com/saucelabs/forwarder/middleware"
 	"github.com/saucelabs/forwarder/ruleset"
 )
 
-var (
-	vfRunWD   time.Weekday
-	vfRunHour int
-)
-
-func vfRunStubWeekday(t time.Time) time.Weekday { return vfRunWD }
-func vfRunStubHour(t time.Time) int             { return vfRunHour }
-
-//vf:override (time.Time).Weekday = vfRunStubWeekday
-//vf:override (time.Time).Hour = vfRunStubHour
 //vf:override (*github.com/saucelabs/forwarder.httpProxyMetrics).error = vfStubMetricsError
 
-//vf:harness property=C04 nopanic modelonly reach=timeframe-run-boundary-crossed steps=8000000
+//vf:harness property=C04 nopanic reach=timeframe-run-boundary-crossed steps=8000000
 func vfH_C04_timeframe_run() {
 	// three clock readings: when the proxy is built, when the first and when the second request arrives
 	inside := func(label string) bool { return vfrt.Choice(label, 2) == 1 }
+	var now time.Time
+	defer middleware.VfSetClock(func() time.Time { return now })()
 	set := func(in bool) {
-		vfRunWD, vfRunHour = time.Monday, 20
+		hour := 20
 		if in {
-			vfRunHour = 10
+			hour = 10
 		}
+		now = time.Date(2024, 1, 8, hour, 30, 0, 1, time.UTC) // a Monday
 	}
 	atBuild, at1, at2 := inside("inside-when-built"), inside("inside-at-first-request"), inside("inside-at-second-request")
 	if atBuild != at1 || at1 != at2 {
